@@ -332,21 +332,41 @@ def apply(s, name, args, ctx):
                 _request(s, c.slots[idx[k]])
                 _check_tree(s, ctx, t, c.slots[idx[k]], f"{c.kind}/slice-agrees-with-indices")
             s.containers.append(_Container(sub, [c.slots[k] for k in idx], "list"))
+            if idx and idx != list(range(len(idx))):
+                s.flags["non_prefix_slice"] = True
+            if args[0] % 2 and len(idx) > 0:
+                # a population made of the slice: iteration, map and further slicing go through the slice's own indices
+                from swcgeom.core import Population
+
+                wrapped = ctx.lib("Population(slice)", lambda: Population(sub, root="slice"))
+                s.containers.append(_Container(wrapped, [c.slots[k] for k in idx], "population-of-slice"))
         elif name == "iterate":
             if not s.containers:
                 return
             c = s.containers[args % len(s.containers)]
-            trees = ctx.lib(f"iter({c.kind})", lambda: [c.real[k] for k in range(len(c.real))] if c.kind == "list" else list(c.real))
+            by_index = c.kind == "list" and args % 2 == 0
+            trees = ctx.lib(f"iter({c.kind})", lambda: [c.real[k] for k in range(len(c.real))] if by_index else list(c.real))
+            if c.kind in ("list", "population-of-slice") and not by_index and c.slots and \
+                    [sl[1] for sl in c.slots] != list(range(len(c.slots))):
+                s.flags["iterated_non_prefix_slice"] = True
             ctx.check(len(trees) == len(c.slots), f"{c.kind}/iteration-length", f"{len(trees)} vs {len(c.slots)}")
             for t, sl in zip(trees, c.slots):
                 _request(s, sl)
                 _check_tree(s, ctx, t, sl, f"{c.kind}/iteration-order")
         elif name == "map":
             pops = [c for c in s.containers if hasattr(c.real, "map") and 0 < len(c.slots) <= 6]
-            if not pops or s.flags.get("maps", 0) >= 1:
+            sliced = [c for c in pops if c.kind == "population-of-slice"]
+            if s.flags.get("maps", 0) >= 1:
+                # a second map per history only for a population made of a slice (it forks a process pool)
+                if not sliced or s.flags.get("maps_sliced"):
+                    return
+                pops = sliced
+            if not pops:
                 return
-            s.flags["maps"] = 1
-            c = pops[args % len(pops)]
+            s.flags["maps"] = s.flags.get("maps", 0) + 1
+            c = pops[args % len(pops)] if not sliced else sliced[args % len(sliced)]
+            if c.kind == "population-of-slice":
+                s.flags["maps_sliced"] = True
             res = ctx.lib("Population.map", lambda: list(c.real.map(_chain_len, max_worker=2)))
             for sl in c.slots:
                 _request(s, sl)
@@ -397,6 +417,10 @@ def finish(s, ctx):
         ctx.cls("populations")
     if s.flags.get("maps"):
         ctx.cls("map")
+    if s.flags.get("maps_sliced"):
+        ctx.cls("map-over-a-population-made-of-a-slice")
+    if s.flags.get("iterated_non_prefix_slice"):
+        ctx.cls("iterated-a-non-prefix-slice")
     ctx.nontrivial(sum(1 for n in nfiles if n >= 3) >= 2 and nested and empty and s.flags["repeat"]
                    and s.flags["negative"] and s.flags["chain2"])
 
@@ -406,8 +430,9 @@ SUBCHECKS = [
             {"population": INT, "populations": SEL, "ps_get": SEL, "ps_iter": INT, "to_population": INT, "chain": SEL,
              "get": SEL, "slice": lambda tier: st.lists(st.integers(-12, 12), min_size=4, max_size=4).map(lambda v: [abs(v[0])] + v[1:]),
              "iterate": INT, "map": INT, "transform": INT},
-            start, apply, invariant, finish, quick=640, thorough=4000, steps_quick=40, steps_thorough=70,
+            start, apply, invariant, finish, quick=1200, thorough=4000, steps_quick=40, steps_thorough=70,
             shards_quick=8, required={"repeated-access": 40, "negative-index": 40, "chain-over>=2-members": 30,
                                       "populations": 40, "nested": 60, "has-empty-folder": 40, "roots:3": 20, "map": 10,
-                                      "root-without-files": 5}),
+                                      "root-without-files": 5, "iterated-a-non-prefix-slice": 5,
+                                      "map-over-a-population-made-of-a-slice": 2}),
 ]
